@@ -397,6 +397,44 @@ func runC20(r *Run) {
 	rt := r.Rule("C20.retain", "in the hot closure a slice field of a retained object (message, destination value, pooled object) is only ever assigned a value derived from its own previous value (reslice without capacity clamp, append onto it): the warm backing array and its capacity survive every operation", 5)
 	checkRetained(r, rt, hot)
 	rt.Done()
+	// ---- no interface-to-interface conversion on a hot path
+	ic := r.Rule("C20.ifaceconv", "no conversion of one interface type to another (an upcast such as hash.Hash -> io.Writer, or an assertion to an interface type) lies on a success path of the hot closure: since Go 1.22 such a conversion goes through a per-site type-assert cache that the runtime fills - allocating - at an unpredictable call, which no escape diagnostic shows (EXT, amd64/arm64)", 0)
+	{
+		n := 0
+		for _, fn := range hot {
+			eachInstr(fn, func(b *ssa.BasicBlock, i int, in ssa.Instruction) {
+				var what string
+				switch x := in.(type) {
+				case *ssa.ChangeInterface:
+					if types.Identical(x.X.Type(), x.Type()) {
+						return
+					}
+					if it, ok := x.Type().Underlying().(*types.Interface); ok && it.NumMethods() == 0 {
+						return // to the empty interface: no method table needed
+					}
+					what = "conversion " + typeShort(x.X.Type()) + " -> " + typeShort(x.Type())
+				case *ssa.TypeAssert:
+					if _, isI := x.AssertedType.Underlying().(*types.Interface); !isI {
+						return
+					}
+					if _, fromI := x.X.Type().Underlying().(*types.Interface); !fromI {
+						return
+					}
+					what = "assertion to interface " + typeShort(x.AssertedType)
+				default:
+					return
+				}
+				if !canSucceed(p, fn, b) {
+					return
+				}
+				n++
+				ic.Violation(fn, instrPos(in), what, "interface-to-interface conversion on a hot path: one allocation (the runtime's type-assert cache entry for this site) at an unpredictable call, however well the message and the destinations were warmed")
+			})
+		}
+		ic.Instance("hot closure", true, map[string]int{"functions": len(hot), "conversions_on_success_paths": n})
+	}
+	ic.Done()
+
 	// the attribute list narrowed for a callback is restored on every exit: a list left narrowed has lost capacity and the next decode allocates (shared with C07)
 	r.Borrow("C07", map[string]string{"C07.restore": "C20.restore"})
 }
